@@ -48,6 +48,9 @@ var c13labels = []c13lab{
 	/* 24 */ {"dd = \x01\nlocal function f(p) return p end\nlocal dd = f(dd)\n", 2, false, true, ""},
 	// the hovered name stands between two bracketed string keys on its line
 	/* 25 */ {"local t = { a = 7, b = 8 }\nlocal dd = \x01\nprint(t[\"a\"], dd, t[\"b\"])\n", 1, true, true, ""},
+	// a table field initialised from a local of the same name: the value is the local (key: occurrence 1, value: occurrence 2)
+	/* 26 */ {"local dd = \x01\nlocal win = { dd = dd, w = 2 }\nprint(win)\n", 2, true, true, ""},
+	/* 27 */ {"local dd = \x01\nlocal win = {\n\tw = 2,\n\tdd = dd,\n}\nprint(win)\n", 2, true, true, ""},
 }
 
 func VerifRun_C13d() {
